@@ -47,7 +47,21 @@ func main() {
 	only := flag.String("rule", "", "run only the rules whose name has this prefix")
 	list := flag.Bool("list", false, "print every obligation")
 	showReplay := flag.String("replay", "", "print a replay file and re-run its rule")
+	genAnchors := flag.String("gen-anchors", "", "write the signature table of the module's functions to this file and exit")
 	flag.Parse()
+	if *genAnchors != "" {
+		prog, err := Load(*repo, nil)
+		if err != nil {
+			fmt.Fprintln(os.Stderr, err)
+			os.Exit(2)
+		}
+		b, _ := json.MarshalIndent(prog.GenAnchors(), "", " ")
+		if err := os.WriteFile(*genAnchors, b, 0o644); err != nil {
+			fmt.Fprintln(os.Stderr, err)
+			os.Exit(2)
+		}
+		return
+	}
 
 	if *showReplay != "" {
 		b, err := os.ReadFile(*showReplay)
@@ -91,6 +105,12 @@ func main() {
 		extra["packages_loaded"] = len(p.Roots)
 		extra["repo_functions"] = len(p.RepoFns)
 		extra["load_s"] = loadS
+		if len(p.Renames) > 0 {
+			extra["renamed_anchors"] = p.Renames
+			for _, m := range p.Renames {
+				fmt.Println("NOTE: " + m)
+			}
+		}
 	}
 	if *tier == "thorough" && err == nil {
 		extra["variants"] = runVariants(*prop, *repo, *variants, rep)
